@@ -372,6 +372,9 @@ fn eval_case<C: Debug + Hash + Serialize>(
     res
 }
 
+/// Wall-time budget for shrinking one failure.
+const SHRINK_BUDGET_S: u64 = 90;
+
 pub struct PropSub<C> {
     pub strategy: Arc<dyn Fn(Tier) -> BoxedStrategy<C> + Send + Sync>,
     pub oracle: Oracle<C>,
@@ -401,13 +404,24 @@ where
         let strategy = (self.strategy)(cfg.tier);
         let stats_cell = RefCell::new(&mut stats);
         let failed = std::cell::Cell::new(false);
+        // Shrinking is bounded by wall time as well as by iterations: once the budget is used up every further candidate
+        // is declared passing without being run, so proptest settles on the smallest case that really failed.
+        let failed_at: std::cell::Cell<Option<std::time::Instant>> = std::cell::Cell::new(None);
         let result = runner.run(&strategy, |case| {
             let counting = !failed.get();
+            if let Some(t0) = failed_at.get() {
+                if t0.elapsed() > std::time::Duration::from_secs(SHRINK_BUDGET_S) {
+                    return Ok(());
+                }
+            }
             let mut st = stats_cell.borrow_mut();
             match eval_case(cfg, sub, &self.oracle, &case, &mut st, counting) {
                 Ok(()) => Ok(()),
                 Err(v) => {
                     failed.set(true);
+                    if failed_at.get().is_none() {
+                        failed_at.set(Some(std::time::Instant::now()));
+                    }
                     Err(TestCaseError::fail(
                         serde_json::to_string(&v).unwrap_or_else(|_| v.message.clone()),
                     ))
